@@ -360,7 +360,10 @@ func executeC20(scn *Scenario) *RunResult {
 			res.Skipped = "stream_does_not_load"
 			return res
 		}
+		recordSoloSites = scn.Strat.Kind == "sweep" && !scn.Strat.Resolved && c.Kind != "dualload"
 		refs, total := soloRefs(twin, c.Readers)
+		recordSoloSites = false
+		resolveSweep(&scn.Strat, c.Readers, refs)
 		refBytes, _ := safeMarshal(twin)
 		other := priorStreamFor2(enc)
 		srng := NewRng(scn.RunSeed ^ 0xc20)
